@@ -3,7 +3,7 @@
 
 usage: c06iv_compare.py <harness.jsonl> <driver.jsonl> [--show N]
 
-For every case: `model == impl` on the fields of `model` (legs, any, concrete, sched, intervals, caches, tour_kept),
+For every case: `model == impl` as whole objects (fields legs, any, concrete, sched, intervals, caches, tour_kept),
 and every oracle must be true. Prints the disagreements / false oracles (first N in full) and the distribution of
 the cases (intervals per tour, carried load, accepted / refused positions). Exit code 1 if anything is wrong.
 """
@@ -50,7 +50,8 @@ def main():
             panics.append((cid, impl["panic"]))
             continue
         model = v["model"]
-        bad = [k for k in model if model[k] != impl.get(k)]
+        # as lib/props.py default_compare: the whole objects must be equal (same keys, same values)
+        bad = sorted(k for k in set(model) | set(impl) if model.get(k) != impl.get(k)) if model != impl else []
         if bad:
             disagreements.append((cid, bad))
         if not v["oracle"]:
@@ -90,7 +91,7 @@ def main():
                 if name == "DISAGREEMENT":
                     for k in what:
                         print(f"  impl.{k}  {json.dumps(impl.get(k))}")
-                        print(f"  model.{k} {json.dumps(verdicts[cid]['model'][k])}")
+                        print(f"  model.{k} {json.dumps(verdicts[cid]['model'].get(k))}")
                 else:
                     print("  impl  " + json.dumps({k: impl[k] for k in ("any", "concrete", "intervals", "caches")}))
         if len(items) > show:
